@@ -76,12 +76,29 @@ def libEntry (j : Json) : Except String LibEntry := do
     | _ => none
   pure (splitSlash n, r)
 
+/-- `{"ws": "8.2.0", "tags": [long names], "lib": [indices of inLibrary tags]}` -/
+def source (j : Json) : Except String Source := do
+  let ws ← getStr j "ws"
+  let tags := (← strList j "tags").map splitSlash
+  let lib ← (← getArr j "lib").mapM asNat
+  let flags := (Array.replicate tags.length false)
+  let flags := lib.foldl (fun a i => if i < a.size then a.set! i true else a) flags
+  pure ⟨ws, tags.zip flags.toList⟩
+
 def handle (op : String) (j : Json) : Option (Except String Json) :=
   match op with
+  | "c13.load" => some do
+      let first ← source (← getVal j "first")
+      let rest ← (← getArr j "rest").mapM source
+      match loadVersions fc first rest with
+      | .ok m => pure (jobj [("ok", jarr (m.map fun n => jstr (joinSlash n)))])
+      | .error .notPartnered => pure (jobj [("err", Json.str "SCHEMA_DUPLICATE_PREFIX")])
+      | .error .withStandardDiffers => pure (jobj [("err", Json.str "BAD_WITH_STANDARD_MULTIPLE_VALUES")])
+      | .error (.clash c) => pure (clashJson c)
   | "c13.find" => some do
       let g ← group j
       let texts ← strList j "texts"
-      pure (jobj [("wellformed", jbool (wellFormed g)),
+      pure (jobj [("wellformed", jbool (wellFormed fc g)),
                   ("wf", jarr (g.map fun e => jbool (functionalTable e.2.vocab.table))),
                   ("results", jarr (texts.map (findJson g)))])
   | "c13.attrs" => some do
